@@ -9,7 +9,7 @@ Separate Extraction
   Base.beq_bytes Json.parse_value Json.parse_doc Json.print Json.norm
   Schema.de_text Schema.de_value Schema.ser
   Wire.decode_request Wire.encode_request Wire.decode_reply Wire.encode_reply
-  Service.feed_all Service.spec_out Service.spec_closed Service.handle Service.arun Service.serve
+  Service.feed_all Service.feed_all_cap Service.bufreader_capacity Service.spec_out Service.spec_closed Service.handle Service.arun Service.serve
   Script.script_iface
   Json.utf8_valid Json.obj_insert
   WireGen.schema_Request WireGen.schema_Reply WireGen.schema_ServiceInfo
